@@ -302,6 +302,51 @@ def gen_default_cases(rng, count: int):
     return cases
 
 
+def gen_e2e_cases(rng, count: int):
+    """nnvg end to end with a user template of plain text: language configuration -> CodeGenerator.__init__ ->
+    _handle_post_processors -> _generate_code -> file"""
+    cases = []
+    blanks = ['\n', ' \n', '\t \n', '   \n']
+    combos = [('c', []), ('py', []), ('cpp', ['--experimental-languages']),
+              ('c', ['--pp-max-emptylines', '0']), ('cpp', ['--experimental-languages', '--pp-max-emptylines', '2']),
+              ('cpp', ['--experimental-languages', '--pp-trim-trailing-whitespace']),
+              ('py', ['--pp-max-emptylines', '3', '--pp-trim-trailing-whitespace'])]
+    for i in range(count):
+        lang, args = combos[i % len(combos)]
+        text = ''
+        for _ in range(rng.randrange(2, 6)):
+            text += rng.choice(['a', 'b ;', ' x  ', 'int y;\t']) + '\n' + ''.join(rng.choice(blanks) for _ in range(rng.randrange(0, 6)))
+        text += rng.choice(['', 'z', 'z \n'])
+        cases.append({'e2e': {'lang': lang, 'args': args, 'template_text': text}})
+    return cases
+
+
+def e2e_case_bad(c, r) -> typing.Optional[str]:
+    if 'ok' not in r:
+        return 'harness error: %r' % (r,)
+    args = c['e2e']['args']
+    limit = int(args[args.index('--pp-max-emptylines') + 1]) if '--pp-max-emptylines' in args else r.get('limit')
+    trim = bool(r.get('trim')) or '--pp-trim-trailing-whitespace' in args
+    text = c['e2e']['template_text']
+    out = r['ok']
+    if trim:
+        if limit is not None and not blank_runs_ok(out, limit):
+            return 'more than %d consecutive blank lines in the generated file' % limit
+        if nonblank_rstripped(out) != nonblank_rstripped(text):
+            return 'a non-blank line was removed or altered beyond its trailing whitespace'
+        if any(cc != cc.rstrip() and cc.strip() != '' for cc, _t in split_lines(out)):
+            return 'trailing whitespace left although trimming is configured'
+    else:
+        run = 0
+        for cc, _t in split_lines(out):
+            run = run + 1 if cc == '' else 0
+            if limit is not None and run > limit:
+                return 'more than %d consecutive empty lines in the generated file' % limit
+        if [l for l in split_lines(out) if l[0] != ''] != [l for l in split_lines(text) if l[0] != '']:
+            return 'a non-empty line was removed or altered'
+    return None
+
+
 def default_case_bad(c, r) -> typing.Optional[str]:
     if 'ok' not in r:
         return 'harness error: %r' % (r,)
@@ -347,7 +392,8 @@ def main(chk: core.Check, replay: typing.Optional[str] = None) -> int:
     if not replay:
         for _ in range(150 if chk.tier == 'quick' else 3000):
             copy_cases.append({'copy_text': gen_text(chk.rng, chk.rng.choice([0, 1, 2, 3, 5, 8, 13, 21, 40])), 'pps': chk.rng.choice(PIPELINES)})
-        copy_cases += [{'copy_text': t, 'pps': p} for t in ['a\nbc', 'bc', 'a \r\nb  ', '\n\n\nx', 'x\r', '\r'] for p in ([['trim']], [['limit', 1]])]
+        copy_cases += [{'copy_text': t, 'pps': p} for t in ['a\nbc', 'bc', 'a \r\nb  ', '\n\n\nx', 'x\r', '\r', 'a  \r\nb\rc \r\n\r\n\r\nd', '\r\n\r\n\r\n', 'q\r\r\n']
+                       for p in ([['trim']], [['limit', 1]], [['trim'], ['limit', 1]])]
     copy_impl = run_impl(copy_cases) if copy_cases else []
 
     # several files through ONE generator object (real _generate_code): every file must be processed with fresh line
@@ -377,14 +423,25 @@ def main(chk: core.Check, replay: typing.Optional[str] = None) -> int:
     default_impl = run_impl(default_cases) if default_cases else []
     default_bad = [(i, default_case_bad(c, default_impl[i])) for i, c in enumerate(default_cases) if 'chunks' in c and default_case_bad(c, default_impl[i])]
 
-    def copy_oracle(c):
-        t = c['copy_text'].replace('\r\n', '\n').replace('\r', '\n')
-        return oracle([t], c['pps'])
+    e2e_cases = gen_e2e_cases(chk.rng, 14 if chk.tier == 'quick' else 140) if not replay else []
+    if replay and 'e2e' in doc.get('case', {}):
+        e2e_cases, cases = [doc['case']], []
+    e2e_impl = run_impl(e2e_cases) if e2e_cases else []
+    e2e_bad = [(i, e2e_case_bad(c, e2e_impl[i])) for i, c in enumerate(e2e_cases) if e2e_case_bad(c, e2e_impl[i])]
+
+    def copy_oracle(c):   # the resource is read with newline="\n" (fix b0be4ff): plain line-by-line application to the file text
+        return oracle([c['copy_text']], c['pps'])
     copy_bad = [i for i, c in enumerate(copy_cases) if copy_impl[i].get('ok') != copy_oracle(c)]
     ok_model, exe, log = core.build_extracted('c15', 'ExtractC15.v', 'c15_driver.ml')
     model = run_model(exe, cases) if ok_model else None
     if not ok_model:
         broken.append('model does not build/extract: ' + log[-300:])
+    copy_model_bad = []
+    if ok_model and copy_cases:
+        lines = ['C %s %s' % (':'.join('T' if p[0] == 'trim' else 'L%d' % p[1] for p in c['pps']) or '-', enc(c['copy_text'])) for c in copy_cases]
+        pm = core.run([exe], input='\n'.join(lines) + '\n', timeout=600).stdout.splitlines()
+        copy_model_bad = [i for i, c in enumerate(copy_cases)
+                          if i >= len(pm) or not pm[i].startswith('C ') or dec(pm[i][2:]) != copy_impl[i].get('ok')]
     handle_model_bad = []
     if ok_model and handle_cases:
         hm = run_model_handle(exe, handle_cases)
@@ -450,7 +507,15 @@ def main(chk: core.Check, replay: typing.Optional[str] = None) -> int:
     chk.coverage['distribution']['handle_post_processors_cases'] = len(handle_cases)
     chk.coverage['distribution']['default_pipeline_file_cases'] = len(default_cases)
     chk.coverage['evaluations'] += len(handle_cases) + len(default_cases)
-    if default_bad and not bad_oracle:
+    chk.coverage['distribution']['nnvg_end_to_end_cases'] = len(e2e_cases)
+    chk.coverage['distribution']['copy_header_model_vs_impl'] = len(copy_cases) if ok_model else 0
+    chk.coverage['evaluations'] += len(e2e_cases)
+    if e2e_bad and not bad_oracle:
+        i, why = e2e_bad[0]
+        chk.violation({'case': e2e_cases[i], 'implementation': e2e_impl[i], 'what': 'nnvg end to end (language configuration -> '
+                       'CodeGenerator.__init__ -> _handle_post_processors -> file): ' + why, 'broken': broken, 'n_failing': len(e2e_bad)},
+                      found_input=True)
+    elif default_bad and not bad_oracle:
         i, why = default_bad[0]
         chk.violation({'case': default_cases[i], 'implementation': default_impl[i], 'what': 'text written through the processors '
                        '_handle_post_processors builds for limit_empty_lines + trim_trailing_whitespace: ' + why,
@@ -485,6 +550,11 @@ def main(chk: core.Check, replay: typing.Optional[str] = None) -> int:
         i, m, got = bad_model[0]
         chk.violation({'case': cases[i], 'model': m, 'implementation': got, 'correspondence': 'Gen/LinePP.v write_builtin vs CodeGenerator._generate_with_line_buffer',
                        'what': 'model and implementation disagree but no input violating the property was found', 'n_disagreements': len(bad_model)},
+                      found_input=False)
+    elif copy_model_bad:
+        i = copy_model_bad[0]
+        chk.violation({'case': copy_cases[i], 'implementation': copy_impl[i], 'correspondence': 'Gen/LinePP.v copy_header . py_lines vs SupportGenerator._copy_header_using_line_pps',
+                       'what': 'model and implementation disagree but no input violating the property was found', 'n_disagreements': len(copy_model_bad)},
                       found_input=False)
     elif handle_model_bad:
         i = handle_model_bad[0]
